@@ -126,3 +126,28 @@ def register(R, tier="quick"):
                          Canary("count-lost", "return self.delete_by_query(q, searcher=searcher)", "self.delete_by_query(q, searcher=searcher)\n    return 0")],
                note="delete_by_term(f, t) is delete_by_query(Term(f, t)) on the given searcher (whose contract: exactly the "
                     "documents docs_for_query yields, once each), and returns its count")
+
+    # ------------------------------------------------------------------ MultiReader.doc_count_all = the end of the offset table
+    from contracts.layout import mk_multi, wf_multi
+
+    def checked_sum_readers(I, args, kw, node):
+        g = args[0]
+        if not isinstance(g, SymGen):
+            raise OutsideSubset("sum() of something else than the reader sizes", node)
+        r = B.b_sum(I, args, kw, node)
+        PS, lo, hi, k, el = I.ghost["last_prefix_sum"]
+        s = I.root_frame.env["self"]
+        same = z3.eq(z3.simplify(el), z3.simplify(CNT(k))) and z3.eq(z3.simplify(to_z3(lo)), z3.IntVal(0)) \
+            and z3.eq(z3.simplify(to_z3(hi)), z3.simplify(s.fields["readers"].n))
+        I.oblige("assert", "sums-doc_count_all-over-every-reader", z3.BoolVal(bool(same)))
+        base = to_z3(s.fields["base"])
+        I.assume(z3.If(hi > lo, PS(hi) == base, base == 0))      # lemma layout/offsets-are-prefix-sums
+        I.notes.add("lemma:layout/offsets-are-prefix-sums used for sum(dr.doc_count_all() ...) == base")
+        return r
+
+    R.contract("whoosh.reading:MultiReader.doc_count_all", props=["C06", "C07"], setup=lambda I: {"self": mk_multi(I)},
+               requires=[wf_multi], ensures=[lambda I, env: to_z3(env["result"]) == to_z3(env["self"].fields["base"])], returns="int",
+               opts={"builtin_override": {"sum": Builtin("sum", checked_sum_readers)}},
+               canaries=[Canary("live-documents-only", "dr.doc_count_all()", "dr.doc_count()")],
+               note="the number of document numbers of a multi-segment reader is the end of its offset table: global numbers "
+                    "are exactly [0, doc_count_all()), each owned by one segment (the lemma links the sum to the table)")
